@@ -172,7 +172,7 @@ var walkPrimitives = map[string]bool{"walk": true, "eval": true, "evaldef": true
 // calls that are not events: pure builtins, conversions, value and node accessors, formatting
 var walkIgnoreFuncs = map[string]bool{"len": true, "make": true, "append": true, "recover": true, "int": true, "float64": true,
 	"string": true, "isInt": true, "isString": true, "checkNumArgs": true, "isNullSafeAccess": true,
-	"fmt.Sprintf": true, "fmt.Errorf": true, "debug.Stack": true,
+	"fmt.Sprintf": true, "fmt.Errorf": true, "debug.Stack": true, "errors.New": true,
 	"data.Int": true, "data.Float": true, "data.String": true, "data.Bool": true, "data.List": true, "data.Map": true}
 var walkIgnoreMethods = map[string]bool{"String": true, "Truthy": true, "Equals": true, "Index": true, "Key": true,
 	"Position": true, "Children": true, "Placeholder": true, "Bytes": true}
@@ -263,6 +263,10 @@ func (x *wx) target(e ast.Expr) string {
 		return "*" + x.target(e.X)
 	case *ast.ParenExpr:
 		return x.target(e.X)
+	case *ast.SelectorExpr:
+		if _, ok := e.X.(*ast.Ident); !ok {
+			return x.target(e.X) + "." + e.Sel.Name
+		}
 	}
 	return x.key(e).String()
 }
@@ -783,6 +787,32 @@ func (g *gen) walkEvents() {
 		entries = append(entries, entry{"htmlEscapeString", x.sub(func() { x.block(fd.Body.List) })})
 	} else {
 		g.fail("walk-events: %s: htmlEscapeString not found", rel)
+	}
+	// the entry points (what sets up the state a walk starts in) and the scope stack the walker's events act on
+	type extra struct{ name, rel, recv, fn string }
+	for _, ex := range []extra{
+		{"Execute", "soyhtml/renderer.go", "Renderer", "Execute"},
+		{"EvalExpr", "soyhtml/eval.go", "", "EvalExpr"},
+		{"newScope", "soyhtml/scope.go", "", "newScope"},
+		{"scope_push", "soyhtml/scope.go", "scope", "push"},
+		{"scope_pop", "soyhtml/scope.go", "scope", "pop"},
+		{"scope_set", "soyhtml/scope.go", "scope", "set"},
+		{"scope_lookup", "soyhtml/scope.go", "scope", "lookup"},
+		{"scope_alldata", "soyhtml/scope.go", "scope", "alldata"},
+		{"scope_enter", "soyhtml/scope.go", "scope", "enter"},
+	} {
+		var fd *ast.FuncDecl
+		if ex.recv == "" {
+			fd = g.funcDecl(ex.rel, ex.fn)
+		} else {
+			fd = g.method(ex.rel, ex.recv, ex.fn)
+		}
+		if fd == nil {
+			g.fail("walk-events: %s: %s not found", ex.rel, ex.fn)
+			continue
+		}
+		x := &wx{g: g, rel: ex.rel, subst: []map[string]wkey{{}}}
+		entries = append(entries, entry{ex.name, x.sub(func() { x.block(fd.Body.List) })})
 	}
 	// every method of *state in exec.go is either a primitive or reachable by inlining: list the names so that a
 	// new helper shows up
